@@ -11,13 +11,13 @@ TB = ("Trusted base: Go 1.23.5 toolchain (go/parser, go/scanner, go/format, go/t
 CHECKS = {
  # id: (level, technique, text, note, design_ref)
  "C03": ("exploration", "runtime monitor: rendered files type-checked with go/types against fabricated packages whose names are the ground truth (reference-model oracle over random import scenarios)",
-         "Random import scenarios (constructor, prefix, ordered ImportName/ImportNames/ImportAlias/Anon calls, 1-12 paths incl. colliding, reserved, unicode, std) are built and rendered by the real code; the output is type-checked against fabricated packages, so every qualifier must resolve to the package it was built with. Sampled, not exhaustive.",
+         "Random import scenarios (constructor, prefix, ordered ImportName/ImportNames/ImportAlias/Anon calls, 1-12 paths incl. colliding, reserved, unicode, std) are built and rendered by the real code; the output is type-checked against fabricated packages, so every qualifier must resolve to the package it was built with. Includes blank-import-only files, empty-name hints, the alias _, last path elements of mixed character classes, /vN local paths. Sampled, not exhaustive.",
          TB + " ImportName is only given true names; body names V_* cannot collide with import names.", "5 C03"),
  "C04": ("exploration", "runtime monitor: import specs of the rendered file vs. rendered references and Anon set (go/types 'imported and not used' / 'undefined' diagnostics + direct spec counts)",
          "Scenarios biased to unused hints, large hint tables, Anon sets and references placed in contexts that render nothing; the import block must equal rendered paths + Anon paths, each once.",
          TB, "5 C04"),
  "C05": ("exploration", "runtime monitor with independent reserved-word oracles (go/token.IsKeyword, types.Universe); exhaustive keyword/universe x style x prefix x competition sub-domain plus random collision scenarios",
-         "Every keyword and universe identifier as last path element / ImportName / ImportAlias, with and without prefix, alone and against 1-3 competitors (complete enumeration), plus random multisets of paths competing for one base name; names must be unique, identifiers, and not reserved.",
+         "Every keyword and universe identifier as last path element / ImportName / ImportAlias, with and without prefix, alone and against 1-3 competitors, numbered fall-backs with 8-129 competitors, and every last path element of 1-3 pieces over 10 character classes (complete enumeration, 8,776 cases), plus random multisets of paths competing for one base name; names must be unique, identifiers, and not reserved.",
          TB, "5 C05"),
  "C06": ("exploration", "runtime monitor: go/types resolution of bare identifiers through dot imports / local declarations; import spec inspection",
          "Scenarios biased to local paths (NewFilePath, NewFilePathName), near-misses of the local path, 0-n dot imports, prefix; bare identifiers must resolve through `import . \"p\"` or to the local package, near-misses must be imported normally.",
@@ -26,49 +26,49 @@ CHECKS = {
          "Recipes rich in maps (Dicts with colliding qualified keys, nested Dicts, Tags incl. case-variant keys, ImportNames/Anon tables, import scenarios) are rebuilt and rendered many times and in 4/16 child processes; all outputs must be byte-identical. Map orders cannot be forced; the evidence reports the distinct orders observed.",
          TB + " Go's randomised map iteration provides the order diversity.", "5 C07"),
  "C08": ("exploration", "runtime monitor: offline checker over recorded render histories (repeat-equal, name-monotone, declared invariants)",
-         "Random histories of File.Render / File.GoString / Statement.RenderWithFile / Group.RenderWithFile (each done twice), renders whose writer fails on purpose, additions, later ImportName/ImportNames/ImportAlias (incl. dot), Anon, prefix toggles; every event is recorded and the log judged offline (3,000 / 100,000 histories; the thorough tier runs under the race detector).",
+         "Random histories of File.Render / File.GoString / Statement.RenderWithFile / Group.RenderWithFile (each done twice), renders whose writer fails on purpose, additions, later ImportName/ImportNames/ImportAlias (incl. dot), Anon (also of paths referenced only later), blank preambles, prefix toggles, nil items before real ones; every event is recorded and the log judged offline (3,000 / 100,000 histories; the thorough tier runs under the race detector).",
          TB + " Anon on an already referenced path is excluded, as the statement says.", "5 C08"),
  "C11": ("exploration", "runtime monitor: go/types constant evaluation of rendered literals (value and type) over exhaustive and boundary value domains",
-         "Exhaustive bool/8-bit (and 16-bit in thorough); limits, 2^k+-1, 10^k+-1 and random values for wider integers; floats: +-0, subnormals, extremes, every decade +-1ulp, integral values of every decimal length, random bits; complex pairs. Rendered in batches via Lit, Lit+NoFormat and LitFunc, type-checked with go/types, compared with v and its type.",
+         "Exhaustive bool/8-bit (and 16-bit in thorough); limits, 2^k+-1, 10^k+-1 and random values for wider integers; floats: +-0, subnormals, extremes, every decade +-1ulp, integral values of every decimal length, random bits; complex pairs. Rendered in batches via Lit, Lit+NoFormat and LitFunc, type-checked with go/types, compared with v and its type; literals next to imports that want a type name, as operands inside list items, stateful LitFunc, literal statements extended by chaining.",
          TB + " 'exactly v' for floats = converts to exactly v in its type; +-0 identified.", "5 C11"),
  "C12": ("exploration", "runtime monitor: go/scanner token stream of rendered hosts + strconv.Unquote / go/constant / go/types on the literal",
-         "Adversarial and random byte strings (one token, exact value), every valid code point in thorough (boundaries + samples in quick), all 256 bytes; formatted, NoFormat and *Func variants.",
+         "Adversarial and random byte strings (one token, exact value), every valid code point in thorough (boundaries + samples in quick), all 256 bytes; formatted, NoFormat and *Func variants; literals as Dict keys and values; byte literals next to imports named byte; 20k+ literals in one File and literals above 1 MiB.",
          TB, "5 C12"),
  "C13": ("exploration", "runtime monitor: differential rendering with and without injected null-ish items (raw bytes), Empty() marker substitution, two-phase re-render, and AST comparison against the source program for corpus injection",
-         "Every list construct x arity 0-5 x every subset of gaps (complete) plus random arity 0-12, multiplicities and Empty() positions; two-phase cases (null statement given a token after a first render); null injection into every list of real programs.",
+         "Every list construct x arity 0-5 x every subset of gaps (complete) plus random arity 0-12, multiplicities and Empty() positions; two-phase cases (null statement given a token after a first render); the caller's slice reused for a second construct; placeholders returned by (*Group).Null(); empty-text items in the place of Empty(); null injection into every list of real programs.",
          TB, "5 C13"),
  "C16": ("exploration", "runtime monitor: composite literal parsed back from the rendering, multiset and order of (key,value) pairs with unique value markers",
-         "Random Dicts of 0-40 pairs (literals, identifiers, prefix-related keys, calls, qualified identifiers, composites, render-identical duplicates, null sides), formatted, NoFormat and DictFunc.",
+         "Random Dicts of 0-40 pairs (literals, identifiers, prefix-related keys, calls, qualified identifiers, composites, render-identical duplicates, null sides), formatted, NoFormat and DictFunc; twin pairs, clone-derived keys, keys with %, Files that named every package before, two-phase cases (key extended, value placeholder filled, DictFunc filled after construction).",
          TB + " Both 'as written' and 'as formatted' key text orders are admitted.", "5 C16"),
  "C17": ("exploration", "runtime monitor: tag literal -> strconv.Unquote -> reflect.StructTag.Lookup for every key; key order; batch of 1,000 fields per struct",
-         "Random maps of 0-8 keys over the conventional key alphabet to arbitrary byte strings (quotes, backquotes, newlines, invalid UTF-8); nil/empty maps.",
+         "Random maps of 0-8 keys over the conventional key alphabet to arbitrary byte strings (quotes, backquotes, newlines, invalid UTF-8); nil/empty maps; non-ASCII keys; maps filled after Tag was called.",
          TB, "5 C17"),
  "C19": ("exploration", "runtime monitor: import declarations and doc comment groups of the parsed output over the complete cgo combination matrix",
          "All 148,800 combinations of {Qual C, Anon C before/after preambles} x subsets/orders of 7 preamble kinds (one repeats another, one is the empty string) x 10 other-import shapes (incl. paths sorting before \"C\") x prefix x 5 hint kinds naming \"C\", formatted and NoFormat — enumerated completely in both tiers.",
          TB, "5 C19"),
  "C20": ("exploration", "runtime monitor: offline checker over recorded clone/append histories against a list model (live and snapshot views admitted)",
-         "Random histories over a tree of cloned Statement handles (incl. clones of still-empty originals) with capacity-aware appends; after every step every handle is rendered (Render and inside a File) and tokenised; an unmodified clone must equal its original at every step (2,500 / 30,000 histories; the thorough tier runs under the race detector).",
+         "Random histories over a tree of cloned Statement handles (incl. clones of still-empty originals) with capacity-aware appends; after every step every handle is rendered (Render and inside a File) and tokenised; an unmodified clone must equal its original at every step (2,500 / 30,000 histories; the thorough tier runs under the race detector); 25 fixed non-expression originals (case clauses, comments, tags, Dicts, Line) whose clones must render identically and extend like the original.",
          TB, "5 C20"),
  "C01": ("exploration", "runtime monitor: per-program round trip — go/ast transcribed into DSL calls, rendered by the real code, re-parsed, normalised AST compared with the source AST declaration by declaration",
-         "Every file of the vendored corpus, /repo, GOROOT/src (sample in quick, all in thorough), go1.26 src and the module cache (thorough, two translator seeds, ~100k files / ~2M declarations) plus generated programs; choice among equivalent documented spellings is randomised. Sampled over programs, nothing is proved.",
+         "Every file of the vendored corpus, /repo, GOROOT/src (sample in quick, all in thorough), go1.26 src and the module cache (thorough, two translator seeds, ~100k files / ~2M declarations) plus generated programs; choice among equivalent documented spellings is randomised. For odd translator seeds expressions are built through Clone templates; cgo preambles are translated; one file in eight is also written with Save over an older, longer version and read back. Sampled over programs, nothing is proved.",
          TB + " Normalisations limited to comments, layout, redundant parentheses, empty statements and Dict's documented reordering.", "5 C01"),
  "C14": ("exploration", "runtime monitor: byte equality of renders across forms enumerated from the API at check time (apigen + reflection), instrumented callbacks (count, phase flag, goroutine id)",
-         "All ~120 constructors x 150/4,000 generated argument lists: function / Statement method (empty and non-empty receiver) / Group method (appended and returned) / ...Func variant; GoString vs Render vs RenderWithFile(fresh File); callbacks exactly once, inside the constructing call, never at render; corpus programs with a random form per node.",
+         "All ~120 constructors x 150/4,000 generated argument lists: function / Statement method (empty and non-empty receiver) / Group method (appended and returned) / ...Func variant; GoString vs Render vs RenderWithFile(fresh File); callbacks exactly once, inside the constructing call, never at render; empty callbacks followed by chained tokens, Group forms given the same arguments twice, zero Options; corpus programs with a random form per node.",
          TB + " Documented contract panics (Lit of unsupported type, Values(Dict, other)) are never generated.", "5 C14"),
  "C15": ("exploration", "runtime monitor: go/scanner code-token stream with vs without injected comments, comment tokens of the raw rendering, ast.File.Doc / comment groups / package-clause line for file-level comments",
-         "Comment injection at every between-items and end-of-item position of Block/Defs/Struct/Interface/case bodies/File of real and generated programs (22 text shapes); file-level scenarios: headers x package comments (incl. empty entries) x canonical paths.",
+         "Comment injection at every between-items and end-of-item position of Block/Defs/Struct/Interface/case bodies/File of real and generated programs (22 text shapes); file-level scenarios: headers x package comments (incl. empty entries) x canonical paths; raw comment forms, comments leading their statement with Line(), Commentf operands changed after the call; code tokens compared on the formatted and on the NoFormat rendering.",
          TB + " Text containment is judged on the NoFormat rendering (gofmt rewrites doc comments itself).", "5 C15"),
  "C18": ("exploration", "runtime monitor: import spec and qualifier of rendered files vs. the package clause parsed from GOROOT/src/<path>; the gennames tool of the tree is run and its table checked the same way",
-         "Every importable std package directory (297 on this toolchain) alone, with prefix, under ImportAlias(last element) and ImportAlias(arbitrary), after a same-named foreign package; every ordered pair/group sharing a declared name or last path element; all at once in two orders; gennames run offline, every table entry checked, and the cases repeated with ImportNames(table). Enumerated completely in both tiers (2,298 cases).",
+         "Every importable std package directory (297 on this toolchain) alone, with prefix, under ImportAlias(last element) and ImportAlias(arbitrary), after a same-named foreign package; every ordered pair/group sharing a declared name or last path element; all at once in two orders; gennames run offline, every table entry checked, and the cases repeated with ImportNames(table). Enumerated completely in both tiers (2,298 cases), each case produced up to seven ways (fresh, second render, with an unreferenced cgo preamble, after RenderWithFile, File named like the package, alias after a name hint, alias twice).",
          TB + " GOROOT/src of the installed toolchain is the ground truth.", "5 C18"),
  "C02": ("exploration", "runtime monitor: twin builds (formatted vs NoFormat) compared through go/format, go/parser on every output, per-case recover; random compositions over the API table by reflection, and damaged real programs",
-         "Random compositions over every construct (valid and nonsensical) under random File settings, one third grammar-biased; formatted output must equal gofmt(raw twin), errors iff gofmt rejects, nothing written on error, no panic; fragments through Statement/Group Render/RenderWithFile/GoString; recovered contract panics before judged renders; real programs with one damaged list.",
+         "Random compositions over every construct (valid and nonsensical) under random File settings, one third grammar-biased; formatted output must equal gofmt(raw twin), errors iff gofmt rejects, nothing written on error, no panic; fragments through Statement/Group Render/RenderWithFile/GoString; recovered contract panics before judged renders; recovered contract panics and renders whose writer fails before judged renders; NoFormat flipped between renders of the same Files; real programs with one damaged list.",
          TB + " Documented contract panics and API misuse are outside the domain.", "5 C02"),
  "C09": ("exploration", "Go race detector (go build -race, reports read back from GORACE log_path) + output equality of every job across sequential permutations, interleavings, 16-goroutine concurrent rounds and fresh processes; shared sub-statements vs fresh copies",
-         "400/3,000 jobs (import scenarios, random compositions, map-rich recipes, corpus programs) in 3/8 permutations, build-then-render and re-render passes, 3/8 concurrent rounds on 16 goroutines under the race detector, 6/12 fresh processes running the whole list in their own order, 40/400 jobs alone in a fresh process; 600/8,000 sharing sequences.",
+         "400/3,000 jobs (import scenarios, random compositions, map-rich recipes, corpus programs) in 3/8 permutations, build-then-render and re-render passes, 3/8 concurrent rounds on 16 goroutines under the race detector, 6/12 fresh processes running the whole list in their own order, 40/400 jobs alone in a fresh process; 600/8,000 sharing sequences (shared statements, a shared signature continued per File, a shared argument slice, a shared name table that must stay unmodified), concurrent Save.",
          TB + " The race detector reports only races that are executed; interleavings are sampled.", "5 C09"),
  "C10": ("fault_enumeration", "runtime monitor: instrumented io.Writer (calls, bytes, programmable full/partial failure), probe nodes that fail mid-render, filesystem snapshots (content hash, mode, mtime, inode) around Save",
-         "For every tree the complete fault x entry-point matrix: formatter error, render error at node i, writer error on write k (reporting 0, half or all bytes written), and for Save: new / existing longer / existing empty file, directory target, missing parent, component is a file, name too long, /dev/full. Trees (real programs, every third damaged, and random compositions) are sampled.",
+         "For every tree the complete fault x entry-point matrix: formatter error, render error at node i, writer error on write k (reporting 0, half or all bytes written), and for Save: new / existing longer / existing empty file, directory target, missing parent, component is a file, name too long, a private full device, a second Save after the target was changed behind the File's back. Trees (real programs, every third damaged, and random compositions) are sampled.",
          TB + " Running as root: an unwritable directory is realised by the other failing targets.", "5 C10"),
 }
 
